@@ -81,8 +81,7 @@ def r12_1_sites(ctx):
     helpers.update({x.name: x.node for x in util.all_funcs if x.cls is None and x.name in ("unescapeStr", "correctBase32Padding")})
     ctx.analysed(f.fq, *[f"{cmod.name}.{n}" for n in helpers])
     OpS = op_sym(ctx.model)
-    ok, enumvals = try_const(ctx.model, cmod, cmod.assigns["intEnumValues"])
-    q.need(ok, "intEnumValues is not a literal dict")
+    enumvals = named_int_table(ctx)
     ctx.check(enumvals == TL.NAMED_INTS, "R12.2", "intEnumValues", f"named integer constants {enumvals} must equal the AVM's OnCompletion / TxnType numbering {TL.NAMED_INTS}", f.module.rel, fact={"table": enumvals})
 
     def oracle(e, me):
@@ -213,7 +212,7 @@ def r12_4_index_range(ctx):
     cmod = f.module
     helpers = {x.name: x.node for x in cmod.all_funcs if x.cls is None}
     OpS = op_sym(ctx.model)
-    ok, enumvals = try_const(ctx.model, cmod, cmod.assigns["intEnumValues"])
+    ok, enumvals = True, named_int_table(ctx)
 
     def oracle(e, me):
         t = u(e)
@@ -244,13 +243,58 @@ def r12_4_index_range(ctx):
         ctx.ok("R12.4", "createConstantBlocks:intc-index", {"refused": r.exc_text[:60]}, f.where)
 
 
+def _sdk_enum_member(ctx, module_name: str, cls_name: str, member: str):
+    """value of an IntEnum member of the installed SDK, read from its source text (nothing is imported)"""
+    import os
+    import sysconfig
+
+    rel = module_name.replace(".", os.sep) + ".py"
+    for base in [sysconfig.get_paths()["purelib"]] + [p_ for p_ in __import__("sys").path if p_.endswith("site-packages")]:
+        fn = os.path.join(base, rel)
+        if os.path.exists(fn):
+            tree = ast.parse(open(fn, encoding="utf-8").read())
+            for st in tree.body:
+                if isinstance(st, ast.ClassDef) and st.name == cls_name:
+                    for x in st.body:
+                        if isinstance(x, ast.Assign) and any(isinstance(t, ast.Name) and t.id == member for t in x.targets) and isinstance(x.value, ast.Constant) and isinstance(x.value.value, int):
+                            return x.value.value
+            return None
+    return None
+
+
+def named_int_table(ctx) -> dict:
+    """the constants pass's table of named integers; entries written as literals or as (int of) a member of an SDK enum"""
+    cmod = ctx.model.module("pyteal.compiler.constants")
+    node = cmod.assigns["intEnumValues"]
+    ok, v = try_const(ctx.model, cmod, node)
+    if ok:
+        return v
+    q.need(isinstance(node, ast.Dict), "intEnumValues is not a dict display")
+    out = {}
+    for k, val in zip(node.keys, node.values):
+        q.need(isinstance(k, ast.Constant) and isinstance(k.value, str), "intEnumValues has a computed key")
+        okv, cv = try_const(ctx.model, cmod, val)
+        if okv:
+            out[k.value] = cv
+            continue
+        inner = val.args[0] if isinstance(val, ast.Call) and u(val.func) == "int" and len(val.args) == 1 else val
+        got = None
+        if isinstance(inner, ast.Attribute) and isinstance(inner.value, ast.Name):
+            imp = cmod.imports.get(inner.value.id, "")
+            if imp.startswith("algosdk."):
+                modname, _, clsname = imp.rpartition(".")
+                got = _sdk_enum_member(ctx, modname, clsname, inner.attr)
+        q.need(got is not None, f"intEnumValues[{k.value!r}] = `{u(val)}` cannot be resolved statically")
+        out[k.value] = got
+    return out
+
+
 def r12_2b_named_ints(ctx):
     """shared with C08 / C09: the numbering behind `int NoOp`, `int axfer`, ... when constants are assembled"""
     ctx.rule("R12.2", "named integer constants: the table the constants pass reads equals the AVM's OnCompletion / transaction type numbering, and every EnumInt literal of the package is one of its names")
     cmod = ctx.model.module("pyteal.compiler.constants")
     q.need("intEnumValues" in cmod.assigns, "pyteal.compiler.constants.intEnumValues vanished")
-    ok, enumvals = try_const(ctx.model, cmod, cmod.assigns["intEnumValues"])
-    q.need(ok, "intEnumValues is not a literal dict")
+    enumvals = named_int_table(ctx)
     ctx.check(enumvals == TL.NAMED_INTS, "R12.2", "intEnumValues", f"named integer constants {enumvals} must equal the AVM's OnCompletion / TxnType numbering {TL.NAMED_INTS}", cmod.rel, fact={"table": enumvals})
     n = 0
     for fn in ctx.model.modules.values():
